@@ -7,6 +7,7 @@
 //! Exit status: 0 property held on everything explored (possibly with KNOWN-FINDING lines),
 //! 1 violation (a `VIOLATION property=<id> replay=<path>` line was printed), 2 harness error.
 
+mod ambient;
 mod arena;
 mod c01;
 mod c06;
